@@ -93,11 +93,10 @@ static ares_status_t ares_dns_write_header(const ares_dns_record_t *dnsrec,
   /* RCODE */
   if (dnsrec->rcode > 15 && ares_dns_get_opt_rr_const(dnsrec) == NULL) {
     /* Must have OPT RR in order to write extended error codes */
-    rcode = ARES_RCODE_SERVFAIL;
-  } else {
-    rcode = (unsigned short)(dnsrec->rcode & 0xF);
+    return ARES_EFORMERR;
   }
-  u16 |= rcode;
+  rcode  = (unsigned short)(dnsrec->rcode & 0xF);
+  u16   |= rcode;
 
   status = ares_buf_append_be16(buf, u16);
   if (status != ARES_SUCCESS) {
